@@ -22,7 +22,7 @@ ALL = ops.BINARY + ops.UNARY + REG
 
 
 def floors(tier):
-    f = {'distinct_nontrivial': 700 if tier == 'quick' else 60000, 'first_calls_with_generation_seen': 300,
+    f = {'distinct_nontrivial': 700 if tier == 'quick' else 60000, 'first_calls_with_generation_seen': 300, 'range_key_containers': 20,
          'repeat_calls_checked': 2000, 'interleaved_other_calls': 300}
     for k in KINDS:
         f['repeat_kind_' + k] = 100
@@ -131,6 +131,10 @@ def one_case(ctx, ge, alg, regs, cfg, name, op):
             if rng.random() < 0.3:
                 ks = gen.permuted(rng, ks)
             keysets.append(ks)
+    if op in ops.ELEMENTARY_BIN + ops.ELEMENTARY_UN and len(canon) <= 16 and rng.random() < 0.12:
+        # a dense operand whose key container is a range (binary order), as produced by keys=range(len(alg))
+        keysets = [range(len(canon)) for _ in keysets]
+        ctx.count('range_key_containers')
     cid = [name, op, [list(k) for k in keysets]]
     if not ctx.want(cid):
         return
